@@ -989,3 +989,115 @@ class SubscriptionActorHistory(Obligation):
                              z3.Implies(b2.n == 2, z3.Distinct(a1, a2, ack(b2.elems[0]), ack(b2.elems[1])))))
         out.append(Cover('reached'))
         return out
+
+
+class SubscriptionActorExpiryHistory(SubscriptionActorHistory):
+    """the same real actor task, a history with the ack deadline passing: Post[m1,m2], Pull(1), time passes (ack deadline + 1 s), Stats,
+    Pull(10), stale Ack, Stats"""
+
+    def __init__(self, ctx, id_):
+        SubscriptionActorHistory.__init__(self, ctx, id_)
+        self.desc = ('the subscription actor as started by SubscriptionActor::start, fed Post[m1,m2], Pull(1); then the ack deadline passes (+1 s) with an empty '
+                     'mailbox; Stats, Pull(10), Ack of the old id, Stats: the unacked delivery is back in the backlog (after m2), redelivered under a new ack id, '
+                     'and its old ack id is inert')
+        self.bounds = {'history': 'the 7 requests above', 'time': 'two bursts, each within 1 s, separated by ack deadline + 1 s', 'select! start index': 0}
+
+    def body(self, ip, p):
+        ctx = ip.ctx
+        from models_async import ReceiverM, OneshotTx, poll_future
+        from props.C16 import default_reply
+        ctx.on_enqueue = default_reply
+        p.timers_never_fire = True
+        p.signals_never_fire = True
+        p.clock_span_ns = NS
+        p.select_in_order = True
+        name = sym_name(ctx, p, 'SubscriptionName', 'own')
+        secs = p.fresh('ack_deadline_s')
+        p.assume(z3.And(secs >= 10, secs <= 600))
+        info = mk(ctx, 'SubscriptionInfo', name=name, ack_deadline=S(secs * NS, 'Duration'), push_config=Enum('Option', 0, {}))
+        observer = run_to_end(ip.call_fn(ctx.fn('SubscriptionObserver', 'new'), []))
+        mstate = Cell(mk_opt(ctx, 'State', 'subscriptions/subscription_manager', subscriptions=MapM([]), next_id=S(p.fresh('s_next'), 'u32')), 'smgr-state')
+        delegate = mk(ctx, 'SubscriptionManagerDelegate', state=ArcCell(Cell(LockM('subscription_manager.state', mstate))))
+        pstate = Cell(mk(ctx, 'PushSubscriptionsRegistryState', push_subscriptions=MapM([])), 'pstate')
+        reg = mk(ctx, 'PushSubscriptionsRegistry', state=ArcCell(Cell(LockM('push_registry.state', pstate))))
+        n0 = len(p.log)
+        run_to_end(ip.call_fn(ctx.fn('SubscriptionActor', 'start'),
+                              [S(p.fresh('iid'), 'u32'), info, ArcTok(p.fresh('topic_tok'), 'Topic'), ArcCell(Cell(observer, 'observer')), reg, delegate]))
+        spawned = [e for e in p.log[n0:] if e[0] == 'spawn']
+        if len(spawned) != 1:
+            raise Unsupported('SubscriptionActor::start spawned %d tasks' % len(spawned))
+        task = spawned[0][1]
+        ms = [p.fresh('m%d_tok' % i) for i in (1, 2)]
+        p.assume(ms[0] != ms[1])
+        ev = ctx.src.enum_variants('SubscriptionRequest')
+        idx = {n: i for i, (n, _) in enumerate(ev)}
+        txs = {}
+
+        def tx(label):
+            p.counter += 1
+            t = OneshotTx(p.counter)
+            txs[label] = t
+            return t
+
+        def req(variant, **kw):
+            return Enum('SubscriptionRequest', idx[variant], {idx[variant]: tuple(kw[n] for n in ev[idx[variant]][1])})
+        rx = ReceiverM([req('PostMessages', messages=Seq([ArcTok(t, 'TopicMessage') for t in ms], 2, 'vec')),
+                        req('PullMessages', max_count=S(z3.IntVal(1), 'u16'), responder=tx('pull1'))])
+        ups = list(task.upvars)
+        k = [i for i, u in enumerate(ups) if isinstance(u, Opaque) and u.tag == 'mpsc.Receiver']
+        if len(k) != 1:
+            raise Unsupported('the actor task does not own exactly one mailbox')
+        ups[k[0]] = rx
+        cell = Cell(Enum(task.name, task.discr, task.payload, ups), 'actor-task')
+
+        def drive():
+            r = run_to_end(poll_future(ip, Loc(cell)))
+            if r.discr != 1 or rx.items:
+                raise Unsupported('the actor task did not park after the requests')
+        drive()
+        sent = lambda label: getattr(p, 'sent', {}).get(txs[label].cid)
+        first = sent('pull1')
+        if first is None or first.discr != 0 or concrete_int(first.payload[0][0].n) != 1:
+            return {'first': first}
+        a1 = fld(ctx, first.payload[0][0].elems[0], 'PulledMessage', 'ack_id')
+        # time passes: every later clock reading is at least ack deadline + 1 s after the last one of the first burst
+        last = p.clock_readings[-1]
+        p.clock_floor = last + secs * NS + NS
+        p.clock_span_base = p.clock_floor
+        drive()                     # empty mailbox: the expiry arm of the loop runs
+        rx.items += [req('GetStats', responder=tx('stats1')),
+                     req('PullMessages', max_count=S(z3.IntVal(10), 'u16'), responder=tx('pull2')),
+                     req('AcknowledgeMessages', ack_ids=Seq([a1], 1, 'vec'), responder=tx('ack1stale')),
+                     req('GetStats', responder=tx('stats2'))]
+        drive()
+        return {'first': first, 'ms': ms, 'a1': a1, 'replies': {k_: sent(k_) for k_ in txs}}
+
+    def post(self, ip, p, res):
+        ctx = ip.ctx
+        first = res['first']
+        out = [Claim('the first pull hands out exactly one delivery', 'replies' in res)]
+        if 'replies' not in res:
+            return out
+        ms, rp = res['ms'], res['replies']
+        if not all(v is not None and v.discr == 0 for v in rp.values()):
+            out.append(Claim('every request is answered and succeeds', False))
+            return out
+        tok_of = lambda pm: fld(ctx, pm, 'PulledMessage', 'message').tok
+        ack = lambda pm: ack_of(ctx, fld(ctx, pm, 'PulledMessage', 'ack_id'))
+        a1 = ack_of(ctx, res['a1'])
+        out.append(Claim('pull 1 hands out m1', tok_of(first.payload[0][0].elems[0]) == ms[0]))
+
+        def stats(label):
+            s_ = rp[label].payload[0][0]
+            return (fld(ctx, s_, 'SubscriptionStats', 'outstanding_messages_count').t, fld(ctx, s_, 'SubscriptionStats', 'backlog_messages_count').t)
+        o, b = stats('stats1')
+        out.append(Claim('after the deadline: nothing outstanding, both messages in the backlog', z3.And(o == 0, b == 2)))
+        b2 = rp['pull2'].payload[0][0]
+        out.append(Claim('pull 2 hands out both messages', b2.n == 2))
+        if len(b2.elems) >= 2:
+            out.append(Claim('pull 2: m2 first (never handed out), then the expired m1', z3.Implies(b2.n == 2, z3.And(tok_of(b2.elems[0]) == ms[1], tok_of(b2.elems[1]) == ms[0]))))
+            out.append(Claim('the redelivery carries a new ack id', z3.Implies(b2.n == 2, z3.Distinct(a1, ack(b2.elems[0]), ack(b2.elems[1])))))
+        o, b = stats('stats2')
+        out.append(Claim('the old ack id is inert: both redeliveries stay outstanding', z3.And(o == 2, b == 0)))
+        out.append(Cover('reached'))
+        return out
